@@ -148,7 +148,7 @@ fn relate(c: &RrlCfg, s1: IpAddr, k1: &Kind, s2: IpAddr, k2: &Kind) -> Relation 
         // A query for the wildcard owner name itself against an answer
         // synthesised from that wildcard: "QNAME or source of synthesis" does
         // not say whether these two are the same stream.
-        if same_name && k1.synthesised != k2.synthesised {
+        if same_name && ((k1.synthesised && k2.direct_wildcard) || (k2.synthesised && k1.direct_wildcard)) {
             text.push_str("(qname-vs-synthesis)");
             if expect == Expect::Limited {
                 expect = Expect::Either;
